@@ -4,13 +4,16 @@ def precTable : List (String × Int) := [("Add", 2), ("And", (-2)), ("Divide", 3
 def precDefault : Int := 0
 def lazyOps : List String := ["And", "Or"]
 def operators : List (String × String) := [("!=", "NotEqual"), ("%", "Modulo"), ("*", "Multiply"), ("+", "Add"), ("-", "Subtract"), ("/", "Divide"), ("//", "FloorDivide"), ("<", "LessThan"), ("<=", "LessThanOrEqual"), ("==", "Equal"), (">", "GreaterThan"), (">=", "GreaterThanOrEqual"), ("and", "And"), ("in", "In"), ("is", "Is"), ("is not", "IsNot"), ("not", "Not"), ("not in", "NotIn"), ("or", "Or"), ("|", "Union")]
-def intOps : List (String × String) := [("Add", "+"), ("Divide", "/"), ("FloorDivide", "floor(float/float)"), ("GreaterThan", ">"), ("GreaterThanOrEqual", ">="), ("LessThan", "<"), ("LessThanOrEqual", "<="), ("Modulo", "%"), ("Multiply", "*"), ("Subtract", "-")]
+def intOps : List (String × String) := [("Add", "+"), ("Divide", "/"), ("FloorDivide", "floordiv"), ("GreaterThan", ">"), ("GreaterThanOrEqual", ">="), ("LessThan", "<"), ("LessThanOrEqual", "<="), ("Modulo", "floormod"), ("Multiply", "*"), ("Subtract", "-")]
 def listAddExpr : String := "slices.Clip(append(l, l2...))"
 def listAddAppendsToReceiver : Bool := true
 def listAddClips : Bool := true
 def freezeWraps : String := "receiver"
-def sortedArg : String := "reslice"
-def reversedArg : String := "reslice"
+def sortedArg : String := "copy"
+def reversedArg : String := "copy"
 def constantFoldsLists : Bool := true
 def listSlice : String := "reslice"
+def opsCompare : String := "ops[0] >= ops[1]"
+def opsRestCalls : Nat := 3
+def opsRecheck : Bool := true
 end PlzVerif.Generated.C16
